@@ -69,9 +69,11 @@ class Metric:
         self.calls += 1
         X = funcs._as_sarr(_unlazy(X))
         if isinstance(y, np.ndarray):
-            if y.ndim != 0:
+            if y.size != 1:
                 raise Unsupported('metric called with a non-scalar frame')
-            y = _raw(y)[()] if isinstance(y, SArr) else y.item()
+            y = _raw(y).reshape(-1)[0] if isinstance(y, SArr) else y.reshape(-1)[0].item()
+        if X.ndim == 2 and X.shape[1] == 1:
+            X = X.reshape(-1)            # frames stored as rows of width 1 (MPI jobs need array-valued frames)
         if X.ndim != 1:
             raise Unsupported('metric called with frames of unexpected rank')
         return funcs.np_array([self.d(x, y) for x in X.cells()], dtype=float)
@@ -100,7 +102,7 @@ def concrete_metric(T, scale):
     M = np.array([[float(x * scale) for x in row] for row in T], dtype=float)
 
     def metric(X, y):
-        return M[np.asarray(X, dtype=int), int(y)].astype(float)
+        return M[np.asarray(X, dtype=int).reshape(-1), int(np.asarray(y).reshape(-1)[0])].astype(float)
     return metric, M
 
 
